@@ -81,8 +81,9 @@ def main(argv):
     obligations = []
     failures = []
     functions = []
+    kani_functions = {}
     backends = {}
-    assumptions = list(spec.get('assumptions', []))
+    assumptions = list(spec.get('assumptions', [])) + list(P.TRUSTED_BASE)
     bounds = []
     cmds = []
     for r in results:
@@ -119,7 +120,9 @@ def main(argv):
                                  'replay_hint': o.get('replay_hint')})
         for rec in r.get('records', []):
             if prop in rec.get('props', []):
-                functions.append({k: rec[k] for k in ('obligation', 'function', 'file', 'lines', 'sha256_body', 'rewrites') if k in rec})
+                functions.append({k: rec[k] for k in ('obligation', 'function', 'file', 'lines', 'sha256_body', 'rewrites', 'contract') if k in rec and rec[k]})
+        if r.get('kani_functions') and any(prop in o['props'] for o in r.get('obligations', [])):
+            kani_functions.setdefault(r['name'], r['kani_functions'])
         for a in r.get('assumptions', []):
             if a not in assumptions:
                 assumptions.append(a)
@@ -172,7 +175,9 @@ def main(argv):
         'functions_under_contract': functions,
         'functions_under_contract_count': len(functions),
         'bounded_parts': bounds,
-        'samples': [o for o in obligations[:3]] + [o for o in obligations if not o['ok']][:5],
+        'kani_functions_under_contract': kani_functions,
+        'samples': ([o for o in obligations if o['engine'] == 'verus'][:2] + [o for o in obligations if o['engine'] == 'kani'][:2]
+                    + [f for f in functions if f.get('contract')][:2] + [o for o in obligations if not o['ok']][:5]),
         'failed_obligations': [{'obligation': f['obligation'], 'message': f['diags'][0]['message'] if f['diags'] else ''} for f in failures],
         'known_findings_hit': [k['obligation'] for k, _ in known_hits],
         'undecided': undecided[:20],
